@@ -4,9 +4,9 @@ from ..explore_r import explore, add_violations, replay_r, run_once, describe_ev
 
 
 def run_r(pid, tier, seed, scns, acceptors, bound, on_exc, required_witness, rule, assumptions=(), res=None,
-          label="engine_r"):
+          label="engine_r", split=1):
     res = res or common.Result(pid, tier, seed)
-    tot = explore(scns, acceptors, bound, on_exc=on_exc, seed=seed)
+    tot = explore(scns, acceptors, bound, on_exc=on_exc, seed=seed, split=split)
     add_violations(res, tot)
     cov = res.coverage
     cov["states"] = cov.get("states", 0) + len(tot["digests"])
@@ -16,7 +16,7 @@ def run_r(pid, tier, seed, scns, acceptors, bound, on_exc, required_witness, rul
     cov["distinct_nontrivial"] = cov.get("distinct_nontrivial", 0) + len(tot["digests"])
     cov.setdefault("distinct_outcomes", 0)
     cov["distinct_outcomes"] += len(tot["digests"])
-    cov[label] = dict(scenarios=sorted(scns), deviation_bound_completed=bound, executions=tot["n"],
+    cov[label] = dict(scenarios=sorted(scns) if len(scns) <= 40 else "%d scenarios, e.g. %s" % (len(scns), sorted(scns)[:3]), deviation_bound_completed=bound, executions=tot["n"],
                       choice_points_executed=tot["points"], longest_choice_sequence=tot["maxlen"],
                       aborted_runs=tot["aborted"], subtrees=tot["tasks"], wall_s=tot["wall_s"])
     w = cov.setdefault("witness_classes", {})
